@@ -51,6 +51,7 @@ documents`_.
 """
 
 import re
+import copyreg
 import socket
 import string
 from unicodedata import normalize
@@ -1085,6 +1086,14 @@ class OrderedMultiDict(dict):
     def __setstate__(self, state):
         self.clear()
         self.update_extend(state)
+
+    def __reduce_ex__(self, protocol):
+        # The default reduction of a dict subclass also emits the dict's
+        # items, which copy.copy()/copy.deepcopy() replay through
+        # __setitem__ *after* __setstate__, i.e. as (key, most recent
+        # value) assignments that drop every other value of the key.
+        # The pair list from __getstate__ is the complete state.
+        return (copyreg.__newobj__, (type(self),), self.__getstate__())
 
     def _clear_ll(self):
         try:
